@@ -335,6 +335,113 @@ def python_side(ctx, ns):
                     f"read={e.gx!r}", None)
 
 
+# ----------------------------------------------------------------------------- executed fixed-point conditions
+import operator as _op
+CMPS = {"<": _op.lt, "<=": _op.le, ">": _op.gt, ">=": _op.ge, "==": _op.eq, "!=": _op.ne}
+RAW_EDGES = [0, 1, 29000, 2**31 - 1, 2**31, 2**31 + 1, 2**32 - 1, 2**32, 2**32 + 29, 3 * 10**9, 5 * 10**9, 12345678901]
+INT_EDGES = [0, 1, 7, 21474, 21475, 30000, 42949, 42950, 65000, 123456]
+
+
+def gen_cond(rng):
+    """`with <comparison>: marker = 1` (+ `with Else: marker = 2`): 64-bit operands only (x variables, x registers, decimal
+    and integer constants, r/sr registers, q variables; optionally one arithmetic step on a side), values on both sides of
+    2^31 and 2^32 raw"""
+    prog = D.base_prog(rng, rng.choice(["l", "g"]))
+    fx = lambda: (["d", rng.choice(RAW_EDGES[1:] + [3000050000, 2147483648])] if rng.random() < 0.25
+                  else D.pick_leaf(rng, prog, rng.choice(["vx", "vx", "x"]), True))
+    it = lambda: (["c", rng.choice(INT_EDGES)] if rng.random() < 0.4 else D.pick_leaf(rng, prog, rng.choice(["r", "sr", "vq"]), True))
+    a, b = rng.choice([(fx, it), (it, fx), (fx, fx), (fx, fx)])
+    a, b = a(), b()
+    if D.is_const(a) and D.is_const(b):
+        a = D.pick_leaf(rng, prog, "vx")
+    if rng.random() < 0.3:
+        k = rng.randrange(2)
+        side = [a, b][k]
+        if not D.is_const(side):
+            side = rng.choice([["*", side, ["c", 2]], ["+", side, it()], ["/", side, ["c", 4]], ["-", side, ["d", 50000]]])
+            a, b = (side, b) if k == 0 else (a, side)
+    return dict(prog, cond=[rng.choice(list(CMPS)), a, b], els=rng.random() < 0.6)
+
+
+def cond_inputs(rng, case):
+    """operand values near each other and near the 2^31 / 2^32 raw boundaries (all non-negative)"""
+    n = rng.choice(INT_EDGES)
+    near = lambda: max(0, n * FB + rng.choice([-1, 0, 0, 1, FB // 2]))
+    xv = lambda: near() if rng.random() < 0.5 else rng.choice(RAW_EDGES) + rng.choice([0, 0, 1, 7])
+    iv = lambda: n if rng.random() < 0.6 else rng.choice(INT_EDGES)
+    has_global = any(v[2] == "g" for v in case["vars"])
+    xregs = {l[1] for l in D.leaves(case["cond"][1]) + D.leaves(case["cond"][2]) if l[0] == "x"}
+    regs = {str(k): (xv() if k in xregs else iv()) for k in case["owned"] if k != 10 and not (k == 7 and has_global)}
+    vars_ = {nm: (xv() if f == "x" else iv() & ((1 << (8 * D.FSIZE[f] - 1)) - 1)) for nm, f, _ in case["vars"]}
+    return {"regs": regs, "vars": vars_, "mode": "nonneg"}
+
+
+def build_cond(case):
+    """the REAL program object: comparison built by the real overloads, real `with` blocks"""
+    b = D.FBuilt(dict(case, stmts=[]))
+    mk = next(n for n, f, _ in case["vars"] if f == "Q")
+    op, x, y = case["cond"]
+    c = CMPS[op](b.expr(x), b.expr(y))
+    with c as Else:
+        setattr(b.e, mk, 1)
+    if case["els"]:
+        with Else:
+            setattr(b.e, mk, 2)
+    return b, c, mk
+
+
+def check_cond(ctx, case, inputs_list):
+    try:
+        built, c, mk = build_cond(case)
+    except Exception as ex:                       # noqa: BLE001
+        return ["emit-error:" + type(ex).__name__]
+    E = built.E
+    insns = built.insns()
+    R = Runner(dict(case, stmts=[]), built, insns)
+    fm = R.fm
+    sc = c.value if isinstance(c, E.InvertComparison) else c          # == is ~(!=)
+    byloc = {(b, off): n for n, (b, off, f) in R.layout.items()}
+    out = []
+    for inp in inputs_list:
+        regs = {int(k): v for k, v in inp["regs"].items()}
+        if R.has_global:
+            regs[7] = GLOBAL_BASE
+        varbytes = dict(inp["vars"], **{mk: 0})
+        regview = dict(regs)
+        regview.setdefault(10, interp.STACK_TOP)
+        varat = lambda base, off, fmt, _v=varbytes: (dsl.sx(_v[byloc[(base, off)]], 64) if fmt == "x"
+                                                   else dsl.fmt_value(fmt, _v[byloc[(base, off)]]))
+        try:
+            vals = []
+            node_values(E, sc.left, regview, varat, vals)
+            node_values(E, sc.right, regview, varat, vals)
+            qa = D.eval_q(case["cond"][1], regview, varbytes, fm)
+            qb = D.eval_q(case["cond"][2], regview, varbytes, fm)
+        except (dsl.Outside, KeyError, ZeroDivisionError):
+            out.append("cond:outside")
+            continue
+        truths = {CMPS[case["cond"][0]](x, y) for x in qa for y in qb}
+        if len(truths) != 1 or not all(0 <= v < (1 << 63) for v in vals):
+            out.append("cond:outside")
+            continue
+        want = 1 if truths.pop() else (2 if case["els"] else 0)
+        m = R.machine([tuple(i) for i in insns], regs, varbytes)
+        try:
+            m.run()
+        except interp.Fault as e:
+            if not (m.trace and m.trace[-1] == len(insns)):
+                ctx.require(False, "code of a fixed-point condition faults", {"cond": case, "inputs": inp}, str(e), None)
+                out.append("cond:fault")
+                continue
+        got = m.load(R.addr(mk), 8)
+        ok = ctx.require(got == want, "a condition on fixed-point operands runs the wrong branch (exact rational comparison "
+                         "of the operand values)", {"cond": case, "inputs": inp},
+                         f"marker={got} want={want} left={sorted(qa)[0]} right={sorted(qb)[0]}", None)
+        big = any(v >= (1 << 31) for v in vals)
+        out.append(("cond:ok" if ok else "cond:fail") + (":ge2^31" if big else ":small"))
+    return out
+
+
 # ----------------------------------------------------------------------------- run / replay
 def run(ctx):
     progs = gen_programs(ctx)
@@ -368,6 +475,12 @@ def run(ctx):
             ctx.stats["oracle:" + st] += 1
             n += 1
     ctx.extra["oracle_executions"] = n
+    # (b') comparisons on fixed-point operands, executed (which branch runs), judged by the Fraction reference
+    for _ in range(ctx.n(700, 12000)):
+        c = gen_cond(ctx.rng)
+        ctx.case(c, kind="cond")
+        for st in check_cond(ctx, c, [cond_inputs(ctx.rng, c) for _ in range(4)]):
+            ctx.stats["oracle:" + st] += 1
     # (c) float model, Python side
     float_model(ctx)
     python_side(ctx, sorted(set(D.BELOW + D.DEC_CLASSES["unit"] + D.DEC_CLASSES["neg"] + D.DEC_CLASSES["big"]
@@ -385,6 +498,9 @@ def replay(ctx, case):
     if "pyset" in case:
         python_side(ctx, [case["pyset"]])
         return {"pyset": case["pyset"]}
+    if "cond" in case:
+        c = case["cond"]
+        return {"cond": check_cond(ctx, c, [case["inputs"]] if "inputs" in case else [cond_inputs(ctx.rng, c) for _ in range(6)])}
     if "cmp" in case:
         return {"cmp": check_cmp(ctx, case["cmp"])}
     prog = case["prog"]
@@ -417,14 +533,19 @@ ASSUMPTIONS = ["decimal constants are decimal literals n/10^5 with |n| < 2^51 (a
                "fit precondition of the oracle: every node of the tree the generator computes (after the store scaling) has a value "
                "in the signed W-bit range, W = 32 if the destination or any leaf is at most 4 bytes wide, else 64; divisors non-zero; "
                "statements in a program-level class of C01 (sum-minus, narrow-reg-in-64, ...) are counted, not judged (C01's findings)",
-               "comparisons: only the scaling rule of `comparison` (which side is multiplied); the branch code is C03's"]
+               "comparisons: the scaling rule of `comparison` is corresponded with the model (cmpScale); the emitted compare/branch code of "
+               "fixed-point conditions is covered by EXECUTION against the Fraction reference only (operands 64 bits wide, non-negative, "
+               "every node < 2^63); its opcode model is C03's (Ebv.Model.GenCond), not used here"]
 RULE = ("programs = JSON surface DSL with fixed typing (dsl_fixed.py): leaves x registers, x stack/array-map variables, decimal "
         "constants (boundary set: decimals whose double product lies just below the decimal -- 0.29 0.57 0.58 1.13 1.15 ... --, "
         "units, negatives, >= 2^31 scaled, 2^51-1), ints, r/sr/w/sw registers, variables of the 8 integer formats; operators "
         "+ - * / // %; destinations x registers/variables, integer views and variables; random trees to depth 3, the depth-1 "
         "family (operator x leaf kind x leaf kind x destination kind; sampled in the quick tier), targeted shapes (Sum objects "
         "meeting fixed point, Binary + Sum, int/fixed, float // expr); a non-negative and a negative stream of constants and "
-        "inputs; mixed comparisons; float model: n/10^5 for |n| <= 2*10^6 (exhaustive in the thorough tier, |n| <= 6*10^4 plus "
+        "inputs; mixed comparisons (scaled sides), and executed conditions `with <cmp>: marker = 1 / with Else: marker = 2` over x "
+        "variables (stack and array-map), x registers, decimal and integer constants, r/sr registers, q variables on either side, "
+        "optionally one arithmetic step, all six operators, operand values next to each other and on both sides of 2^31 and 2^32 "
+        "raw; float model: n/10^5 for |n| <= 2*10^6 (exhaustive in the thorough tier, |n| <= 6*10^4 plus "
         "stride 37 in the quick tier), random windows below 2^51, random fractions; non-trivial = accepted with > 1 instruction")
 PROVED = [
     "fx_typing / elabF_rep: induction over surface trees, all signs, over Z/Q -- every operator overload branch (direct, reflected, "
@@ -440,6 +561,7 @@ CORRESPONDED_NOT_PROVED = [
     "float // non-fixed expression (`__rfloordiv__` truncates the float with int() first): modelled (decTrunc) + corresponded + "
     "oracle; excluded from the typing theorem by FExpr.ok (exact only for positive divisors)",
     "`comparison` scaling rule (cmpScale): corresponded + order oracle on the real objects; no theorem (C03)",
+    "executed fixed-point conditions (with / Else): real code in interp.py vs the Fraction reference; not modelled in GenFixed",
     "the Rat formulation decConstQ (normalised fractions between the roundings) = decConst: compared by the sweep, not proved; "
     "roundToDouble's second branch (quotients >= 2^53) is only exercised by the random-fraction test",
     "the fit precondition is stated on the built tree (divOk), not re-derived from the surface tree",
